@@ -388,6 +388,7 @@ Proof.
   destruct (get_stage s i) as [st|] eqn:Hs; [|exact I].
   destruct (nth_error (s_tasks st) t) as [tk|] eqn:Ht; [|exact I].
   destruct (status_eqb (s_status st) NOT_STARTED). { expose. split; [apply legal_quiet; solve_quiet|exact I]. }
+  destruct (before_incomplete s i). { expose. split; [apply legal_quiet; solve_quiet|exact I]. }
   destruct (start_task_guard (t_status tk)) eqn:G; cbn [negb].
   - apply start_task_guard_spec in G.
     destruct (t_disabled tk); expose; (split; [|exact I]).
